@@ -31,6 +31,19 @@ CHECKS = {
                      "branch/label displacements must hit the bound position. Quick ~4.5M + 0.5M (twin) compared cases, thorough ~21M + 7M.",
                 note="finite product completed; bounded by the boundary sets for 32-bit displacements/immediates and the padding "
                      "distances; trusts llvm-mc 14; [1*r+d] and [r+d] print identically; three printer aliases normalised on both sides"),
+    "C08": dict(level="exploration", engine="encspace", design="5/C08",
+                technique="bounded-exhaustive operand-space enumeration on the real assembler, with llvm-mc (assembler direction, "
+                          "bit-exact) as the independent reference encoder/decoder, plus a small interpreter for sequences",
+                text="Every public method of dora-asm's AssemblerArm64 (parsed from the current source; 294 covered, 0 uncovered) is "
+                     "executed on complete cartesian products of its operand domains (33 registers incl. zr/sp, every Cond/Extend/"
+                     "Shift, whole immediate/offset/shift/bit-field ranges with non-encodable neighbours, all 5334+1302 bitmask "
+                     "immediates, label distances at the ends of every branch range). Each emitted word is compared bit-exactly with "
+                     "llvm-mc 14's encoding of the requested instruction; non-encodable operands must be refused. mov_imm, "
+                     "ldr_mem_*/str_mem_* and label branches are decoded by llvm-mc and evaluated. The 254 same-named methods of "
+                     "arm64.dora are compared with llvm-mc on a reduced product. quick 5.3e6 cases, thorough 6.6e7.",
+                note="a refusal (assert) of an operand the ISA could encode is counted, not a violation (the API may be narrower than the "
+                     "ISA); beyond the quick products register numbers are covered only in combination with boundary immediates; the "
+                     "Dora twin runs only tuples the Rust assembler accepts; driver built like a release build"),
     "C09": dict(level="model_checking", engine="sched", design="5/C09",
                 technique="loom model checking of Mutex/Condition interpreted from thread.dora over the real wait-list code; "
                           "explicit-state BFS of the real wait table against a reference map",
@@ -47,6 +60,14 @@ CHECKS = {
                      "marking worker loop against the real termination detector; termination is only ever observed with zero "
                      "outstanding items, every item is processed exactly once, nobody sleeps forever or spins.",
                 note="the work pool (deques, injector, stealing) is abstracted to one shared stack; the detector is the real code"),
+    "C05": dict(level="exploration", engine="progspace+seqmc", design="5/C05",
+                technique="enumeration of all single-fault mutants (10 rule classes x every applicable position) of generator programs "
+                          "through the real front end; all generator programs through front end, verifier and both code generators",
+                text="~3000 well-typed generator programs (expression shapes, statement lists, generic/trait/visibility programs, "
+                     "family cases) must pass Sema + check_program + emit_program (bytecode verifier) and compile with both code "
+                     "generators; every single-fault mutant (~3500 quick) of ten static-rule classes at every typed hole must be "
+                     "rejected with >= 1 diagnostic, through the API and through `dora compile -c` (no package emitted).",
+                note="mutants are ill-typed by construction; positions where the replacement would stay well typed are not generated"),
     "C06": dict(level="exploration", engine="seqmc", design="5/C06",
                 technique="bounded-exhaustive enumeration of a lexeme text space and of all single-token edits of "
                           "repository files, executed on the real lexer/parser/semantic analysis",
@@ -57,6 +78,13 @@ CHECKS = {
                      "status == !has_errors, CLI exits 1 with messages. Exhaustive inside the bounds, nothing beyond.",
                 note="trusted: the harness' catch_unwind/watchdog; texts beyond the bounds are only represented by repository "
                      "files and their edits"),
+    "C14": dict(level="exploration", engine="progspace", design="5/C14",
+                technique="enumeration of trap kind x callee-shape chains with generator-known frame lists, executed on both code generators",
+                text="13 trap kinds x 7 callee shapes (plain, generic, method, static, lambda, trait-object thunk, inlinable leaf) x "
+                     "chain depth 1-2 (3 thorough): message, exit status, every frame's function name and source line, and the stdout "
+                     "written before the trap must equal what the generator recorded, for both code generators (and both must print "
+                     "identical reports incl. columns).",
+                note="stack overflow / out-of-memory reports are covered by C13; columns only compared between generators"),
     "C16": dict(level="exploration", engine="seqmc", design="5/C16",
                 technique="bounded-exhaustive enumeration of texts x separator styles, oracle evaluated on the real parser's tree",
                 text="The same text space as C06 with all line-ending/separator styles and multi-byte lexemes, plus all "
